@@ -152,8 +152,10 @@ static void one(int codec, const unsigned char *in, size_t n, size_t cap)
 }
 
 /* job = codec*8 + family */
+static void first_use_job(int codec, int order);
 static void job(int j)
 {
+	if (j >= 32) { first_use_job((j - 32) / 4, (j - 32) % 4); return; }
 	int codec = j / 8, fam = j % 8;
 	unsigned char in[8300];
 	int braw = ops[codec]->blocksize_raw;
@@ -213,6 +215,46 @@ static void job(int j)
 	}
 }
 
+/* First-use orders.  The codecs build their reverse tables lazily, on the first call that needs them; every job above runs in a
+ * child of a process that has long made all kinds of calls.  Here the image's static storage is put back to what it was at
+ * program start and the very first call is a decode, an encode, or (Base32) one of the single-character helpers; then a small
+ * sweep must agree with the reference as everywhere else. */
+static char *pristine_data, *pristine_bss;
+__attribute__((no_sanitize_address)) static void rawcpy(char *d, const char *s, size_t n) { for (size_t i = 0; i < n; i++) ((volatile char *)d)[i] = s[i]; }
+static void save_pristine(void)
+{
+	pristine_data = malloc(__stop_sdata - __start_sdata + 1); pristine_bss = malloc(__stop_sbss - __start_sbss + 1);
+	rawcpy(pristine_data, __start_sdata, __stop_sdata - __start_sdata); rawcpy(pristine_bss, __start_sbss, __stop_sbss - __start_sbss);
+}
+static void first_use_job(int codec, int order)
+{
+	unsigned char in[64]; char enc[200]; unsigned char dec[200];
+	rawcpy(__start_sdata, pristine_data, __stop_sdata - __start_sdata); rawcpy(__start_sbss, pristine_bss, __stop_sbss - __start_sbss);
+	for (int i = 0; i < 40; i++) in[i] = (unsigned char)(i * 53 + 200);
+	if (order == 0) {
+		/* decode first: text produced by the reference encoder */
+		size_t el = ref_encode(codec, in, 23, (unsigned char *)enc); enc[el] = 0;
+		size_t dl = sizeof dec;
+		int r = ops[codec]->decode(dec, &dl, enc, el);
+		xp_count(K_CALLS, 1);
+		if (r != 23 || memcmp(dec, in, 23)) fail(codec, "first-call-decode", in, 23, el, "the first call of the process is a decode of reference text: returned %d", r);
+	} else if (order == 1) {
+		size_t el = sizeof enc;
+		ops[codec]->encode(enc, &el, in, 23);
+		xp_count(K_CALLS, 1);
+	} else if (order == 2 && codec == 0) {
+		for (int v = 0; v < 32; v++) if (s_b32_8to5(s_b32_5to8(v)) != v) fail(codec, "first-call-5to8-8to5", in, 0, 0, "b32_8to5(b32_5to8(%d)) != %d as the first calls of the process", v, v);
+	} else if (order == 3 && codec == 0) {
+		for (int c = 0; c < 256; c++) { int v = s_b32_8to5(c); int want = (c >= 'a' && c <= 'z') ? c - 'a' : (c >= 'A' && c <= 'Z') ? c - 'A' : (c >= '0' && c <= '5') ? 26 + c - '0' : -999; if (want != -999 && v != want) fail(codec, "first-call-8to5", in, 0, 0, "b32_8to5('%c') = %d as the first call of the process, expected %d", c, v, want); }
+	} else return;
+	for (size_t n = 0; n <= 40; n++) for (int c = 0; c < 3; c++) {
+		for (size_t i = 0; i < n; i++) in[i] = c == 0 ? 0xFF : c == 1 ? (unsigned char)(i * 37 + 1) : (unsigned char)(0x80 + i);
+		one(codec, in, n, ref_enclen(codec, n)); one(codec, in, n, 2 * n + 2);
+		check_decode_caps(codec, in, n);
+	}
+	if (codec == 0 && order == 0) xp_sample("first-use orders: static storage of the image reset to its start-up contents, then decode / encode / b32_8to5 / b32_5to8 as the very first call, then lengths 0..40 x 3 contents");
+}
+
 static void on_san(const char *sig)
 {
 	char s2[200];
@@ -229,6 +271,7 @@ int main(int argc, char **argv)
 	ops[0] = &s_base32_ops; ops[1] = &s_base64_ops; ops[2] = &s_base64u_ops; ops[3] = &s_base128_ops;
 	xp_init("C07", a.tier, 1024, a.budget_s);
 	xp_guard("!C07", NULL, 0);
+	save_pristine();                                        /* before the first call into the image */
 	int rj = a.replay ? xp_load_replay(a.replay) : -1;      /* before the calibration: its violations replay too */
 	for (int k = 0; k < 4; k++)
 		if (!ref_calibrate(k, ops[k]->encode)) {
@@ -240,7 +283,7 @@ int main(int argc, char **argv)
 		return 0;
 	}
 	hc_quiet();
-	xp_run_jobs(32, job, a.workers);
+	xp_run_jobs(32 + 16, job, a.workers);
 	char extra[200];
 	snprintf(extra, sizeof extra, "\"cases\":%ld,\"real_calls\":%ld,\"short_capacity_cases\":%ld,\"chunk_runs\":%ld",
 		 XS->counters[K_CASES], XS->counters[K_CALLS], XS->counters[K_SHORTCAP], XS->counters[K_CHUNKRUNS]);
